@@ -54,3 +54,33 @@ Theorem C01_fresh_tables_readable :
                        /\ tb (b_sCount s) line = Ok c /\ tb (b_bsCount s) line = Ok bs.
 Proof. exact state_init_reads_ok. Qed.
 Print Assumptions C01_fresh_tables_readable.
+
+(* ---- the block line loop makes progress ------------------------------------------------- *)
+From MD Require Import Lemmas.MapWhole.
+
+(* One pass over the rule chain at line sl (the body of ParserBlock.tokenize's while loop), in any
+   state whose tables satisfy the invariant, for any chain that contains the paragraph rule:
+   some rule succeeds and the cursor ends strictly after sl and inside the line table - the
+   loop cannot spin, and "none of the block rules matched" cannot happen.  (What is excluded by
+   hypothesis is an exception or fuel exhaustion INSIDE a rule: try_rules = Ok.) *)
+Theorem C01_block_loop_progress :
+  forall cfg rf cf rec, rec_c rec -> silent_terms cfg ->
+  forall names st sl el st',
+    try_rules cfg rf cf rec names st sl el = Ok st' -> pre st sl el -> mem_str nm_paragraph names = true ->
+    step_ok st sl st'.
+Proof. exact try_rules_m. Qed.
+Print Assumptions C01_block_loop_progress.
+
+(* the nested tokenize (block quote / list item bodies) makes progress as well whenever its first
+   line is blank or indented at least to the block indent: containers never produce an empty map
+   and never loop *)
+Theorem C01_nested_tokenize_progress :
+  forall cfg rf cf, silent_terms cfg -> mem_str nm_paragraph (c_rules cfg) = true ->
+  forall d st a b st',
+    tokenize cfg rf cf d st a b = Ok st' -> 0 <= a -> a < b -> b <= b_lineMax st -> TI st ->
+    a <= b_line st' <= b_lineMax st /\ (first_ok st a -> a < b_line st').
+Proof.
+  intros cfg rf cf ST PA d st a b st' H A0 AB BL HT.
+  exact (let '(conj _ (conj C2 (conj _ (conj _ (conj _ (conj _ C7)))))) := tokenize_rec_c cfg rf cf ST PA d st a b st' H A0 AB BL HT in conj C2 C7).
+Qed.
+Print Assumptions C01_nested_tokenize_progress.
